@@ -72,7 +72,9 @@ var edits = []string{"none(identical list)", "other-resource-add", "other-resour
 	// ... or stands in front of it and is removed, or modified and moved behind it
 	"stat-sharing-rule-before-removed", "stat-sharing-rule-before-modified-and-moved-after",
 	// ... or is new in the list (it must get a statistic of its own, not the unchanged rule's)
-	"stat-sharing-rule-added-after", "stat-sharing-rule-added-before"}
+	"stat-sharing-rule-added-after", "stat-sharing-rule-added-before",
+	// ... or two of them stand in front of the unchanged rule and go
+	"two-stat-sharing-rules-before-removed"}
 
 // list layout helper: returns the positions of (inert rules, unchanged rule) for the stage
 //
@@ -88,6 +90,8 @@ func shareLayout(edit string, stage int) int {
 		return 3 * (1 - stage)
 	case "stat-sharing-rule-before-modified-and-moved-after": // [S, U] -> [U, S']
 		return 3 + stage
+	case "two-stat-sharing-rules-before-removed": // [S1, S2, U] -> [U]
+		return 5 * (1 - stage)
 	case "stat-sharing-rule-added-after": // [U] -> [U, S]
 		return stage
 	case "stat-sharing-rule-added-before": // [U] -> [S, U]
@@ -119,7 +123,7 @@ func layout(edit string, stage int) (inertBefore, inertAfter int, dup bool, iner
 		return 0, stage, true, 0, 1
 	case "reorder":
 		return 1 - stage, stage, false, 0, 1
-	case "stat-sharing-rule-modified-and-moved-before", "stat-sharing-rule-before-removed", "stat-sharing-rule-before-modified-and-moved-after", "stat-sharing-rule-added-after", "stat-sharing-rule-added-before":
+	case "stat-sharing-rule-modified-and-moved-before", "stat-sharing-rule-before-removed", "stat-sharing-rule-before-modified-and-moved-after", "stat-sharing-rule-added-after", "stat-sharing-rule-added-before", "two-stat-sharing-rules-before-removed":
 		return 0, 0, false, 0, 1
 	}
 	return 0, 0, false, 0, 0
@@ -170,6 +174,9 @@ func flowFamily(name string) *family {
 		}
 		if sl := shareLayout(c.Edit, stage); sl == 2 || sl == 3 {
 			rs = append(rs, share(sl == 2))
+		} else if sl == 5 {
+			s1, s2 := share(false), share(true)
+			rs = append(rs, s1, s2)
 		}
 		rs = append(rs, flowRule(R, name, c.Variant))
 		if sl := shareLayout(c.Edit, stage); sl == 1 || sl == 4 {
@@ -283,6 +290,9 @@ func cbFamily() *family {
 		}
 		if sl := shareLayout(c.Edit, stage); sl == 2 || sl == 3 {
 			rs = append(rs, share(sl == 2))
+		} else if sl == 5 {
+			s1, s2 := share(false), share(true)
+			rs = append(rs, s1, s2)
 		}
 		rs = append(rs, mk())
 		if sl := shareLayout(c.Edit, stage); sl == 1 || sl == 4 {
@@ -356,6 +366,9 @@ func hotFamily(name string) *family {
 		}
 		if sl := shareLayout(c.Edit, stage); sl == 2 || sl == 3 {
 			rs = append(rs, share(sl == 2))
+		} else if sl == 5 {
+			s1, s2 := share(false), share(true)
+			rs = append(rs, s1, s2)
 		}
 		rs = append(rs, mk())
 		if sl := shareLayout(c.Edit, stage); sl == 1 || sl == 4 {
